@@ -292,6 +292,52 @@ func runC07(r *Run) {
 	} else {
 		r.bad("C07.R5", "replaced|anchor", "-", "anchor", "AfterOperatorKeyReplaced not found")
 	}
+	// "per chain": the operator module announces key events of every chain-type AVS to the same hook set; this
+	// module's queues and deletions belong to its own chain, so every writing call of its operator hooks is
+	// dominated by chainID == <this chain>
+	{
+		nW := 0
+		for _, hn := range []string{"AfterOperatorKeySet", "AfterOperatorKeyReplaced", "AfterOperatorKeyRemovalInitiated"} {
+			hv := w.View("x/dogfood/keeper", "OperatorHooksWrapper."+hn)
+			if hv == nil {
+				r.bad("C07.R5", "per-chain|anchor|"+hn, "-", "anchor", "hook not found")
+				continue
+			}
+			var chainParam types.Object
+			for _, fl := range hv.Decl.Type.Params.List {
+				for _, nm := range fl.Names {
+					if nm.Name == "chainID" {
+						chainParam = hv.Info.ObjectOf(nm)
+					}
+				}
+			}
+			for _, c := range allCalls(hv.Decl.Body) {
+				nm := hv.calleeName(c)
+				if !(strings.HasPrefix(nm, "Append") || strings.HasPrefix(nm, "Set") || strings.HasPrefix(nm, "Delete") || strings.HasPrefix(nm, "Complete") || strings.HasPrefix(nm, "Clear") || strings.HasPrefix(nm, "Remove")) {
+					continue
+				}
+				nW++
+				own := false
+				for _, f := range hv.FactsAt(c, false) {
+					cm, isC := factCmp(f)
+					if !isC || cm.Op != "==" {
+						continue
+					}
+					l, rr := cm.L, cm.R
+					if hv.objOf(rr) == chainParam {
+						l, rr = rr, l
+					}
+					if chainParam != nil && hv.objOf(l) == chainParam && strings.Contains(exprString(rr), "ChainIDWithoutRevision(ctx.ChainID())") {
+						own = true
+					}
+				}
+				r.check(own, "C07.R5", "per-chain|"+hn+"|"+nm, hv.pos(c), "the hook writes only for this chain's own id", hn+" calls "+nm+" at "+hv.pos(c)+" without chainID == ChainIDWithoutRevision(ctx.ChainID()): a key event of another chain-type AVS queues or deletes this chain's records of the same consensus address (another operator's active key becomes unresolvable after the unbonding epochs)")
+			}
+		}
+		if nW < 4 {
+			r.bad("C07.R5", "per-chain|matcher", "-", "at least 4 writing calls in the dogfood operator hooks", fmt.Sprintf("only %d found", nW))
+		}
+	}
 	if hv := w.View("x/dogfood/keeper", "OperatorHooksWrapper.AfterOperatorKeyRemovalInitiated"); hv != nil {
 		// "validating" = the current key, or the key it replaced earlier in this epoch, is in the validator set:
 		// a boolean every definition of which is the found-result of GetExocoreValidator
